@@ -46,8 +46,36 @@ PROPS = {
         "explanation": "unknown chunk sizes: compute_chunk_sizes bounded over the catalogue",
     },
     "C29": {
-        "level": "exploration",
-        "explanation": "no data access at build/inspect time: recording sources over the catalogue",
+        "level": "other",
+        "frame": ["srcreads"],
+        "explanation": "static analysis of the real AST: every read of a from_array source (subscript, np.asarray, copy, __array__) in "
+                       "io/_from_array.py is confined to the `is_ndarray` branches, for all inputs; plus a bounded run of builders and "
+                       "metadata accessors over recording sources",
+    },
+    "C10": {
+        "level": "other",
+        "frame": ["kernels"],
+        "explanation": "static ownership analysis of the real AST of every chunk-level kernel: each in-place write site (element store, "
+                       "augmented assignment, out=, in-place method, np.copyto) targets storage that is freshly allocated on every "
+                       "path reaching it, so no task modifies a value it borrowed; schedule independence then follows from purity (B3, assumed)",
+        "assumptions": ["B3 a task graph of pure functions evaluates to the same values in every topological order (not machine-checked)",
+                        "the catalogue of aliasing vs allocating NumPy operations in frame/analyses.py",
+                        "declared frames / owned parameters / fresh callables listed in coverage.frame"],
+    },
+    "C11": {
+        "level": "other",
+        "frame": ["inplace", "kernels"],
+        "explanation": "frame of in-place operations: Array._expr is assigned only in __init__/_replace_expr/__setstate__, no expression "
+                       "mutates its operands, and the setitem kernel writes only into a fresh copy; the reversed-slice arithmetic of "
+                       "assignment is bounded",
+    },
+    "C26": {
+        "level": "other",
+        "frame": ["importfx"],
+        "explanation": "static import-effect analysis over every dask_array module: the statements executed at import time (module top "
+                       "levels, class bodies, decorators, defaults), closed under the init-time import graph, never load dask_array._xarray, "
+                       "never call _ensure_registered/list_chunkmanagers/register, use no dynamic import; _ensure_registered has the single "
+                       "caller dask_array.xarray.register; pyproject.toml declares no xarray entry point. Order-free, for all import orders.",
     },
     "C12": {
         "level": "proof",
